@@ -62,9 +62,7 @@ class Agg:
         self.witness_ok += o.witness_ok
         self.witness_bad.extend(o.witness_bad)
         self.errors.extend(o.errors)
-        for s in o.samples:
-            if len(self.samples) < 12:
-                self.samples.append(s)
+        self.samples = sorted(self.samples + o.samples, key=lambda x: -x.get("_score", 0))[:8]
         for k, v in o.twins.items():
             if self.twins.get(k) != "sat":
                 self.twins[k] = v
@@ -209,9 +207,13 @@ def run_path(fn, cfg, prefix, draw_budget, agg, cfg_name, validate):
         agg.per_cfg[cfg_name] = agg.per_cfg.get(cfg_name, 0) + 1
         if len(ctx.trace) > 0 or ctx.vars:
             agg.nontrivial += 1
-        if len(agg.samples) < 3:
+        score = sum(1 for _, st, _ in ctx.obligations if st in ("unsat", "witness", "sat")) * 10 + len(ctx.trace)
+        if len(agg.samples) < 3 or score > min(x["_score"] for x in agg.samples):
+            if len(agg.samples) >= 3:
+                agg.samples.remove(min(agg.samples, key=lambda x: x["_score"]))
             agg.samples.append(
                 {
+                    "_score": score,
                     "config": cfg_name,
                     "decisions": [list(map(_js, d)) for d in ctx.trace[:40]],
                     "path_condition": [str(c)[:160] for c in ctx.pc[:12]],
